@@ -3,6 +3,7 @@
 (* C04 (ordering, lookups), C07 (range flags through roundtrip, lookups).   *)
 EXTENDS MapModel, Json, IOUtils
 
+It == INSTANCE TokenIter
 Rec == ndJsonDeserialize(IOEnv.TRACE)
 VARIABLES l, bad, free
 vars == <<l, bad, free>>
@@ -24,6 +25,9 @@ JudgeLookups(e) ==
     /\ \A i \in DOMAIN e.args.qs : LookupOK(e.args.toks, e.args.qs[i], e.out.rs[i])
 
 JudgeOrdering(e) == e.out.k = "ok" /\ OrderingOK(e.out)
+\* an iterator session (next / nth / size_hint, then a consuming adaptor) against the cursor machine;
+\* args.toks is what get_token(0..) reports
+JudgeIterate(e) == e.out.k = "ok" /\ It!IterOK(e.args.toks, e.args.steps, e.out.outs)
 
 \* full-range positions: the crate's mappings text decoded with exact arithmetic gives the map's tokens
 JudgeEncodeBig(e) == /\ e.out.k = "ok"
@@ -34,6 +38,7 @@ Judge(e) == CASE e.op = "roundtrip" -> JudgeRoundTrip(e)
               [] e.op = "encode" -> JudgeEncode(e)
               [] e.op = "lookups" -> JudgeLookups(e)
               [] e.op = "ordering" -> JudgeOrdering(e)
+              [] e.op = "iterate" -> JudgeIterate(e)
               [] OTHER -> FALSE
 Free(e) == FALSE
 
